@@ -232,6 +232,12 @@ func (a *authenticator) Authenticate(secret []byte, remoteAddr string) (*auth.Re
 		return nil, nil, types.ErrExpired
 	}
 
+	if len(password) > 72 {
+		// bcrypt reads the first 72 bytes only and such a password cannot be set:
+		// it must not match the password which happens to be its prefix.
+		return nil, nil, types.ErrFailed
+	}
+
 	err = bcrypt.CompareHashAndPassword(passhash, []byte(password))
 	if err != nil {
 		// Invalid password
